@@ -147,7 +147,11 @@ def gen_case(rng, thorough, fixed=None):
     # the straggler and the background
     strag = next(nxt)
     setup = []
-    setup.append(f"pos 0 appendpri {strag} 5")
+    strag_pri = fixed.get("strag_pri", "5")
+    setup.append(f"pos 0 appendpri {strag} {strag_pri}")
+    if fixed.get("extra_pri"):
+        # a third, much less urgent entry: widens the priority range without being the straggler judged
+        setup.append(f"pos 0 appendpri {next(nxt)} {fixed['extra_pri']}")
     for _ in range(qlen - 1):
         setup.append(f"pos 0 appendpri {next(nxt)} 0")
     lines += setup
@@ -161,9 +165,9 @@ def gen_case(rng, thorough, fixed=None):
         if positional and i % pos_every == 1 % pos_every:
             # positional entries (call_pos / task_switch style, positions 0..2) sit at the head while
             # the append (and possibly maintenance) runs; position >= 1 promotes the current head
-            k = rng.choice([1, 2, 2, 3])
+            k = rng.choice(fixed.get("k_choices", [1, 2, 2, 3]))
             for _ in range(k):
-                load.append(f"pos 0 insert {rng.choice([0, 0, 1, 2])} {next(nxt)}")
+                load.append(f"pos 0 insert {rng.choice(fixed.get('pos_choices', [0, 0, 1, 2]))} {next(nxt)}")
             load.append(f"pos 0 appendpri {next(nxt)} 0")
             load += ["pos 0 popleft"] * k
         else:
@@ -172,7 +176,7 @@ def gen_case(rng, thorough, fixed=None):
             # observe first (a maintenance round may just have boosted the entry), then re-key
             load.append("pos 0 counters")
             load.append("pos 0 prios")
-            load.append(f"pos 0 resched {strag} " + ("5" if rekey == "noop" else rng.choice(["4", "3", "2", "1"])))
+            load.append(f"pos 0 resched {strag} " + (strag_pri if rekey == "noop" else rng.choice(["4", "3", "2", "1"])))
         load.append("pos 0 counters")
         load.append("pos 0 prios")
     meta["rekey"] = rekey
@@ -345,6 +349,28 @@ def oracle(lines, outs, meta, tags):
     elif draw * factor > 1:
         tags.add("overtaking-draw")
         if popped_at is None or popped_at > bound + 1:
+            # one specific load is a recorded finding (known_findings.json): every round is
+            # `popleft; insert(0, x); append; popleft` and at every insert(0) - the first insertion
+            # after the pop, which is where the throughput test fires - the straggler is the only
+            # regular entry in the queue, so maintenance always finds nothing to compare it with
+            regular, lone = set(), True
+            for ln2, out2 in zip(lines, outs):
+                t2 = ln2.split()
+                if t2[2] in ("appendpri", "append"):
+                    regular.add(int(t2[3]))
+                elif t2[2] == "insert":
+                    if t2[3] != "0" or (lines.index(ln2) >= start and regular != {strag}):
+                        lone = False
+                elif t2[2] == "popleft" and out2.startswith("obj "):
+                    regular.discard(int(out2.split()[1]))
+                elif t2[2] in ("find", "remove", "clear", "resched", "reschedall"):
+                    lone = False
+            if lone and meta["positional"] and not any(l.split()[2] == "insert" for l in lines[:start]):
+                return len(lines) - 1, f"straggler popped within {bound + 1} rounds whatever the history", \
+                    f"popped at round {popped_at}", \
+                    "straggler starves: every maintenance round fires at an insert(0) at which it is the only regular entry " \
+                    f"(load `popleft; insert(0); append; popleft`, len {qlen})", \
+                    "straggler-late:lone-regular-at-every-maintenance"
             return len(lines) - 1, f"straggler popped within {bound + 1} rounds whatever the history", \
                 f"popped at round {popped_at}", \
                 f"straggler not run within the length-proportional bound (history {meta['n_hist']} ops, {meta['drains']} drains, len {qlen})", \
@@ -447,6 +473,17 @@ def grid():
     g.append(dict(qlen=5, positional=False, n_hist=0, drains=0, rekey="noop", withdrawn=False))
     g.append(dict(qlen=5, positional=False, n_hist=0, drains=0, rekey="urgent", withdrawn=False))
     g.append(dict(qlen=3, positional=True, pos_every=1, draw="1/2", factor="6/5", n_hist=0, drains=0, rekey=None, withdrawn=False))
+    base = dict(draw="15/16", factor="6/5", n_hist=0, drains=0, rekey=None, withdrawn=False)
+    for qlen in (2, 3, 5):
+        # task-switch style inserts that promote the head (position 1), two per round; only position 0
+        # (a positional entry at the head while maintenance runs, nothing promoted); a mix
+        g.append(dict(base, qlen=qlen, positional=True, pos_every=1, pos_choices=[1], k_choices=[2]))
+        g.append(dict(base, qlen=qlen, positional=True, pos_every=1, pos_choices=[0], k_choices=[1]))
+        g.append(dict(base, qlen=qlen, positional=True, pos_every=2, pos_choices=[0, 1, 2], k_choices=[1, 2]))
+    # a straggler just behind the front with a far less urgent entry also queued (wide priority range)
+    for draw in ("15/16", "1/2"):
+        g.append(dict(base, draw=draw, qlen=3, positional=False, strag_pri="1", extra_pri="1000"))
+        g.append(dict(base, draw=draw, qlen=10, positional=False, strag_pri="1", extra_pri="1000"))
     return g
 
 
